@@ -7,6 +7,9 @@ def enc(s):
     return "-" if s is None else ("e" if s == "" else ".".join(str(ord(c)) for c in s))
 
 
+VARLIKE = ["current_date", "Current_Time", "current_timestamp"]      # column names spelled like global variables: only used qualified
+
+
 class Cat:
     def __init__(self, rng, ntables, overlap=False):
         self.tables = []          # (schema or None, name, [columns])
@@ -16,9 +19,16 @@ class Cat:
         for i, n in enumerate(names):
             ncol = rng.randint(1, 4)
             cols = [pool.pop() for _ in range(ncol)]
+            if rng.random() < 0.12:
+                cols[-1] = rng.choice(VARLIKE)
             if overlap and i > 0 and rng.random() < 0.7:
                 cols[0] = self.tables[0][2][0]          # a shared column name: unqualified use is ambiguous
             self.tables.append((rng.choice([None, None, "db", "ods"]), n, cols))
+        if ntables >= 2 and rng.random() < 0.15:
+            # the same table name in two schemas (different columns): they are different tables
+            a, b = self.tables[0], self.tables[1]
+            self.tables[0] = ("ods", a[1], a[2])
+            self.tables[1] = ("dim", a[1], b[2])
 
     def key(self, t):
         return (t[0] + "." if t[0] else "") + t[1]
@@ -41,7 +51,9 @@ class Rel:
 
 
 def base_rel(rng, cat, t):
-    alias = rng.choice([None, None, "x1", "y2", "z3"])
+    alias = rng.choice([None, None, "x1", "y2", "z3", "X4", "Tmp"])
+    if alias is None and sum(1 for u in cat.tables if u[1] == t[1]) > 1:
+        alias = rng.choice(["x1", "y2", "z3", "X4"])
     text = cat.key(t) + ((" AS " if rng.random() < 0.5 else " ") + alias if alias else "")
     return Rel(alias or t[1], [(c, {src(t, c)}) for c in t[2]], text, [cat.key(t)])
 
@@ -54,7 +66,7 @@ def gen_select(rng, cat, depth, used_alias=None):
     for t in tables:
         if depth > 0 and rng.random() < 0.3:
             itext, icols, ikeys = gen_select(rng, cat, depth - 1, used_alias)
-            al = "d%d" % (len(used_alias) + 1)
+            al = rng.choice(["d%d", "d%d", "D%d", "Sub%d"]) % (len(used_alias) + 1)
             used_alias.add(al)
             rels.append(Rel(al, icols, "(" + itext + ") " + al, ikeys))
         else:
@@ -86,6 +98,8 @@ def gen_select(rng, cat, depth, used_alias=None):
         def ref():
             r = rng.choice(rels)
             c, s = rng.choice(r.cols)
+            if c in VARLIKE:
+                return "%s.%s" % (r.vis, c if rng.random() < 0.5 else "`" + c + "`"), c, set(s)
             if count[c] > 1 or rng.random() < 0.4:
                 return "%s.%s" % (r.vis, c), c, set(s)
             return c, c, set(s)
@@ -170,8 +184,20 @@ def case(rng):
     cat = Cat(rng, rng.randint(1, 4), overlap=(0.80 <= kind < 0.86))
     text, out, keys = gen_select(rng, cat, rng.choice([0, 1, 1, 2]))
     expected = expected_select(out)
-    if kind < 0.55:
+    if kind < 0.49:
         pass
+    elif kind < 0.55:                                   # self-join: one table under two aliases
+        t = cat.tables[0]
+        c = t[2][0]
+        d = t[2][-1]
+        j = rng.random()
+        if j < 0.35:                                    # an unqualified column is visible twice: ambiguous, whatever expression it stands in
+            item = rng.choice([c, "%s + 1 AS o" % c, "f(%s) AS o" % c, "max(%s) AS o" % c])
+            return cat, "SELECT %s FROM %s x1 %s %s y2 ON x1.%s = y2.%s" % (item, cat.key(t), rng.choice(["JOIN", "LEFT JOIN"]), cat.key(t), c, c), "ERR AnalyzerErr", None
+        if j < 0.5:
+            return cat, "SELECT %s FROM %s x1, %s y2" % (c, cat.key(t), cat.key(t)), "ERR AnalyzerErr", None
+        text = "SELECT x1.%s AS o1, y2.%s AS o2, f(x1.%s, y2.%s) AS o3 FROM %s x1 JOIN %s y2 ON x1.%s = y2.%s" % (c, d, d, c, cat.key(t), cat.key(t), c, c)
+        return cat, text, expected_select([("o1", {src(t, c)}), ("o2", {src(t, d)}), ("o3", {src(t, c), src(t, d)})]), [cat.key(t)]
     elif kind < 0.65:                                   # WITH table
         inner, iout, ikeys = gen_select(rng, cat, 0)
         text = "WITH w AS (%s) SELECT %s FROM w" % (inner, ", ".join("w." + n if rng.random() < 0.5 else n for n, _ in iout))
@@ -180,12 +206,30 @@ def case(rng):
         if len(cat.tables) >= 2:
             a, b = cat.tables[0], cat.tables[1]
             n = min(len(a[2]), len(b[2]))
-            text = "SELECT %s FROM %s UNION ALL SELECT %s FROM %s" % (", ".join("%s.%s AS u%d" % (a[1], c, i) for i, c in enumerate(a[2][:n])), cat.key(a),
-                                                                      ", ".join("%s.%s" % (b[1], c) for c in b[2][:n]), cat.key(b))
+            va, vb = a[1], b[1]
+            ta, tb = cat.key(a), cat.key(b)
+            if va == vb:                                # same name in two schemas: distinct aliases (one visible name in two branches is K-UNION-SCOPE)
+                va, vb = "x1", "y2"
+                ta, tb = ta + " x1", tb + " y2"
+            text = "SELECT %s FROM %s UNION ALL SELECT %s FROM %s" % (", ".join("%s.%s AS u%d" % (va, c, i) for i, c in enumerate(a[2][:n])), ta,
+                                                                      ", ".join("%s.%s" % (vb, c) for c in b[2][:n]), tb)
             expected = expected_select([("u%d" % i, {src(a, a[2][i]), src(b, b[2][i])}) for i in range(n)])
             keys = [cat.key(a), cat.key(b)]
     elif kind < 0.80:                                   # INSERT with and without a column list, arity (mis)match
         tgt = cat.tables[-1]
+        if len(cat.tables) >= 2 and rng.random() < 0.3:
+            # the SELECT outputs the same name twice: the pairing with the target columns is by POSITION
+            a, b = cat.tables[0], cat.tables[1]
+            ca, cb = a[2][0], b[2][0]
+            sel = "SELECT x1.%s AS same, y2.%s AS same FROM %s x1 JOIN %s y2 ON x1.%s = y2.%s" % (ca, cb, cat.key(a), cat.key(b), ca, cb)
+            if rng.random() < 0.5:
+                stext = "INSERT INTO %s (n1, n2) %s" % (cat.key(tgt), sel)
+                exp = "OK I %s:%s:%s=%s %s:%s:%s=%s" % (enc(tgt[0]), enc(tgt[1]), enc("n1"), fmt_sources({src(a, ca)}), enc(tgt[0]), enc(tgt[1]), enc("n2"), fmt_sources({src(b, cb)}))
+                return cat, stext, exp, [cat.key(a), cat.key(b)]
+            if len(tgt[2]) == 2:
+                stext = "INSERT INTO %s %s" % (cat.key(tgt), sel)
+                exp = "OK I " + " ".join("%s:%s:%s=%s" % (enc(tgt[0]), enc(tgt[1]), enc(nm), fmt_sources({sx})) for nm, sx in zip(tgt[2], [src(a, ca), src(b, cb)]))
+                return cat, stext, exp, [cat.key(tgt)] + [k for k in [cat.key(a), cat.key(b)] if k != cat.key(tgt)]
         ncols = len(out)
         if rng.random() < 0.5:
             names = ["c%d" % i for i in range(ncols if rng.random() < 0.7 else ncols + 1)]
@@ -202,10 +246,15 @@ def case(rng):
     elif kind < 0.86:                                   # ambiguous unqualified reference
         if len(cat.tables) >= 2 and cat.tables[1][2][0] == cat.tables[0][2][0]:
             a, b = cat.tables[0], cat.tables[1]
+            if a[1] == b[1]:                            # same bare name without aliases is K-SAME-TABLE-NAME: alias them
+                return cat, "SELECT %s FROM %s x1, %s y2" % (a[2][0], cat.key(a), cat.key(b)), "ERR AnalyzerErr", None
             return cat, "SELECT %s FROM %s, %s" % (a[2][0], cat.key(a), cat.key(b)), "ERR AnalyzerErr", None
     elif kind < 0.93:                                   # unknown column / unknown qualifier
         a = cat.tables[0]
-        if rng.random() < 0.5:
+        j = rng.random()
+        if j < 0.3:
+            return cat, "SELECT %s.zz_unknown FROM %s" % (a[1], cat.key(a)), "ERR AnalyzerErr", None
+        if j < 0.6:
             return cat, "SELECT zz_unknown FROM %s" % cat.key(a), "ERR AnalyzerErr", None
         return cat, "SELECT nosuch.%s FROM %s" % (a[2][0], cat.key(a)), "ERR AnalyzerErr", None
     else:                                               # argument-less aggregate: every upstream table, column None
